@@ -102,6 +102,18 @@ pub fn universe(full: bool) -> Vec<Arg> {
         u.push(comp("LtG", "U96LimbsLtGuarantee", &["4"], &[], &[]));
         u.push(comp("LtG1", "U96LimbsLtGuarantee", &["1"], &[], &[]));
     }
+    // more shapes: zero-sized in a box, enums whose variants differ in size, nested containers
+    u.push(comp("BoxUnit", "Box", &[], &[&unit], &[]));
+    u.push(comp("Enum3", "Enum", &["ut@Enum3"], &[&felt, &comp("Pair", "Struct", &["ut@Tuple"], &[&felt, &ints[4]], &[]), &unit], &[]));
+    if full {
+        let arr_arr = comp("ArrArr", "Array", &[], &[&arr], &[]);
+        u.push(arr_arr.clone());
+        u.push(comp("NullArr", "Nullable", &[], &[&arr], &[]));
+        u.push(comp("SnapArrArr", "Snapshot", &[], &[&arr_arr], &[]));
+        u.push(comp("Mixed", "Struct", &["ut@Mixed"], &[&unit, &felt, &arr, &u256], &[]));
+        u.push(comp("EnumWide", "Enum", &["ut@EnumWide"], &[&unit, &comp("Wide40", "Struct", &["ut@Tuple"], &(0..40).map(|_| &felt).collect::<Vec<&Arg>>(), &[]), &felt], &[]));
+        u.push(comp("NZbi3", "NonZero", &[], &[&bis[3]], &[]));
+    }
     // values, user type, user function
     let vals: &[&str] = if full { &["0", "1", "-1", "2", "255", "32768", "18446744073709551616", two128, P_MINUS_1, P, "115792089237316195423570985008687907853269984665640564039457584007913129639936"] } else { &["0", "1", "-1", two128, P] };
     for v in vals { u.push(value(v)); }
